@@ -173,11 +173,16 @@ def read_events(ctx, wev):
             forms = [('str', vtext)]
             if ascii_only:
                 forms += [('bytes', vtext.encode('ascii')), ('bytearray', bytearray(vtext.encode('ascii')))]
+            elif vname != 'surrounded by text':
+                forms += [('bytes', vtext.encode('utf-8'))]          # header values are UTF-8 text (RFC 4880 6.2)
             for fname, data in forms:
                 out, crcw, payload, hdrs = load(expect, data)
-                r = {'k': 'read', 'text': codepoints(vtext), 'expect': expect, 'must_load': bool(must and ascii_only), 'out': out, 'crcwarned': crcw,
+                # a block with a non-ASCII (UTF-8) header value that stands at the start of the input must load like any other; buried in
+                # other non-ASCII text it need not
+                must_ = bool(must and (ascii_only or vname != 'surrounded by text'))
+                r = {'k': 'read', 'text': codepoints(vtext), 'expect': expect, 'must_load': must_, 'out': out, 'crcwarned': crcw,
                      'bin': octets(payload) if payload is not None else [], 'label': '%s / %s / %s' % (e['label'], vname, fname)}
-                if hdrs is not None and vname in ('as written', 'CRLF', 'surrounded by text', 're-wrapped at 76 CRLF') and ascii_only:
+                if hdrs is not None and vname in ('as written', 'CRLF', 'surrounded by text', 're-wrapped at 76 CRLF') and (ascii_only or vname != 'surrounded by text'):
                     r['headers'] = hdrs
                 ev.append(r)
         # wrong kind: every other loader must refuse this block
